@@ -13,6 +13,7 @@ EXTRA = {  # other properties whose checks are expected to see the change as wel
     "C05-A": ["C06"], "C05-B": ["C09"], "C06-A": ["C05"], "C06-B": ["C05"], "C11-B": ["C02"], "C13-B": ["C12"], "C12-A": ["C13"],
     "C15-A": ["C19"], "C15-B": ["C07"], "C07-A": ["C15"], "C08-A": ["C18"], "C09-A": ["C05"], "C16-A": ["C13"], "C03-B": ["C01"],
     "C14-B": ["C02"], "C13-A": ["C07"],
+    "R2-C14": ["C07"], "R2-C15": ["C07"], "R2-C16": ["C13"], "R2-C13": ["C16"], "R2-C07": ["C14"], "R2-C11": ["C12"], "R2-C05": ["C04"],
 }
 
 
@@ -37,10 +38,10 @@ def apply(seed):
 
 
 def main():
-    seeds = sys.argv[1:] or sorted(x for x in os.listdir(os.path.join(VERIF, "seeded")) if os.path.isdir(os.path.join(VERIF, "seeded", x)))
+    seeds = sys.argv[1:] or sorted(x for x in os.listdir(os.path.join(VERIF, "seeded")) if os.path.isdir(os.path.join(VERIF, "seeded", x)) and x != "refactors")
     assert clean(), "/repo has uncommitted changes"
     for seed in seeds:
-        prop = seed.split("-")[0]
+        prop = seed.split("-")[1] if seed.startswith("R2-") else seed.split("-")[0]
         for check in [prop] + EXTRA.get(seed, []):
             which = apply(seed)
             if which is None:
